@@ -21,6 +21,12 @@ THEOREMS = [
     "C06_int_roundtrip", "C06_int_print_valid", "C06_int_reject_literal", "C06_int_accept_exact",
     "C06_int_reject_value",
     "C06_boolean", "C06_boolean_reject_literal",
+    "C06_zone_offsets", "C06_zone_out_of_range", "C06_date_roundtrip", "C06_time_roundtrip", "C06_datetime_roundtrip",
+    "C06_microseconds", "C06_date_reject_literal", "C06_time_reject_literal", "C06_datetime_reject_literal",
+    "C06_g_value_spaces", "C06_gyear_roundtrip", "C06_gyearmonth_roundtrip", "C06_gmonthday_roundtrip",
+    "C06_gday_roundtrip", "C06_gmonth_roundtrip", "C06_g_reject_literal",
+    "C06_string_roundtrip", "C06_normalizedstring_roundtrip", "C06_normalizedstring_reject",
+    "C06_hex_roundtrip", "C06_hex_reject_literal", "C06_base64_roundtrip",
 ]
 
 # ---------------------------------------------------------------------------------------------
